@@ -2273,3 +2273,176 @@ func keysOf(m map[string]bool) []string {
 	sort.Strings(out)
 	return out
 }
+
+// ================================================================ round 5, third batch
+
+func init() {
+	extend := func(id string, expl string, extra func(c *Ctx)) {
+		pr := Registry[id]
+		old := pr.Run
+		pr.Run = func(c *Ctx) { old(c); extra(c) }
+		pr.Explanation += " " + expl
+	}
+	imp := func(id, from string, mapping map[string]string, expl string) {
+		extend(id, expl, func(c *Ctx) { importFrom(c, from, mapping) })
+	}
+	extend("C02", "(R2.8) both release managers stamp LastUpdateTime with the current time when a step leaves TrafficRouting (the pause duration is counted from there, not from the last Service change).", r5C02)
+	extend("C15", "(R15.11) the custom provider reports an object as up to date only when spec, annotations and labels all equal the desired ones.", r5C15b)
+	imp("C02", "C15", map[string]string{"R15.11": "R2.9"}, "(R2.9 = C15 R15.11) a step's routing is reported applied only when every part of the custom resource the script produced is in place.")
+	imp("C03", "C15", map[string]string{"R15.11": "R3.11"}, "(R3.11 = C15 R15.11) the same clause for 'traffic follows pods'.")
+	extend("C03", "(R3.10) removeBatchRelease answers 'gone, no retry' only when the BatchRelease was not found: one that is still terminating is waited for, otherwise the next release adopts the old object's Ready status.", r5C03b)
+	imp("C10", "C03", map[string]string{"R3.10": "R10.9"}, "(R10.9 = C03 R3.10) supersession waits for the old BatchRelease to be really gone before the new release starts.")
+}
+
+func r5C02(c *Ctx) {
+	p := c.Prog
+	c.Rule("R2.8", "leaving TrafficRouting stamps LastUpdateTime with now", 2)
+	metrics := ConstVal(p.ConstObj("api/v1beta1", "CanaryStepStateMetricsAnalysis"))
+	for _, name := range []string{"pkg/controller/rollout.canaryReleaseManager.runCanary", "pkg/controller/rollout.blueGreenReleaseManager.runCanary"} {
+		fn := p.Func(name)
+		if fn == nil {
+			c.Unresolved("R2.8", name)
+			continue
+		}
+		var stamps []ssa.Instruction
+		for _, b := range fn.Blocks {
+			for _, in := range b.Instrs {
+				if st, ok := in.(*ssa.Store); ok {
+					if fa, ok := st.Addr.(*ssa.FieldAddr); ok {
+						if n, _ := FieldOf(fa); n == "LastUpdateTime" && SliceHasDeep(st.Val, MCall("time.Now")) {
+							stamps = append(stamps, in)
+						}
+					}
+				}
+			}
+		}
+		isStamp := func(in ssa.Instruction) bool {
+			for _, s := range stamps {
+				if s == in {
+					return true
+				}
+			}
+			return false
+		}
+		n := 0
+		for _, dt := range CallsIn(fn, "trafficrouting.Manager.DoTrafficRouting") {
+			for _, b := range fn.Blocks {
+				for _, in := range b.Instrs {
+					st, ok := in.(*ssa.Store)
+					if !ok {
+						continue
+					}
+					fa, ok := st.Addr.(*ssa.FieldAddr)
+					if !ok {
+						continue
+					}
+					if nm, _ := FieldOf(fa); nm != "CurrentStepState" {
+						continue
+					}
+					if v, isC := StoredConst(st); !isC || v != metrics {
+						continue
+					}
+					if r, _ := CanReach(PointAfter(dt.(ssa.Instruction)), func(x ssa.Instruction) bool { return x == in }, ReachOpts{}); !r {
+						continue
+					}
+					n++
+					reach, _ := CanReach(PointAfter(dt.(ssa.Instruction)), func(x ssa.Instruction) bool { return x == in }, ReachOpts{CutInstr: isStamp})
+					c.Ob("R2.8", shortName(name)+"#stamp-on-leaving-traffic-routing", st.Pos(), !reach, "LastUpdateTime = now before the step state leaves TrafficRouting",
+						ifs(reach, "the step moves on to MetricsAnalysis without LastUpdateTime being set to the current time: the pause duration is then counted from the last Service modification, so time spent applying the routes is taken off the pause and a duration step can be left at once"))
+				}
+			}
+		}
+		if n == 0 {
+			c.Ob("R2.8", shortName(name)+"#stamp-on-leaving-traffic-routing", fn.Pos(), false, "transition out of TrafficRouting", "anchor not found")
+		}
+	}
+}
+
+func r5C15b(c *Ctx) {
+	p := c.Prog
+	c.Rule("R15.11", "compareAndUpdateObject answers unchanged only when spec, annotations and labels are equal", 1)
+	fn := p.Func("pkg/trafficrouting/network/customNetworkProvider.customController.compareAndUpdateObject")
+	if fn == nil {
+		c.Unresolved("R15.11", "customController.compareAndUpdateObject")
+		return
+	}
+	isWrite := apiWrites(p)
+	needs := []struct {
+		desc string
+		m    FactM
+	}{
+		{"spec equal", func(f Fact) bool {
+			return f.Op == "==" && f.L != nil && f.R != nil && f.L.Any(MCall("util.DumpJSON")) && f.R.Any(MCall("util.DumpJSON"))
+		}},
+		{"annotations equal", FTrue(func(t *Term) bool {
+			return t.Op == "call" && strings.HasSuffix(t.Name, "reflect.DeepEqual") && t.Any(func(x *Term) bool { return x.Op == "call" && strings.HasSuffix(x.Name, "GetAnnotations") })
+		})},
+		{"labels equal", FTrue(func(t *Term) bool {
+			return t.Op == "call" && strings.HasSuffix(t.Name, "reflect.DeepEqual") && t.Any(func(x *Term) bool { return x.Op == "call" && strings.HasSuffix(x.Name, "GetLabels") })
+		})},
+	}
+	var missing []string
+	n := 0
+	for _, ret := range returnsOf(fn) {
+		if ret.Block() == fn.Recover || len(ret.Results) != 2 {
+			continue
+		}
+		isUnchanged := false
+		for _, lf := range BoolLeaves(ret.Results[0], ret.Block()) {
+			if k, ok := lf.V.(*ssa.Const); ok && constText(k) == "false" {
+				isUnchanged = true
+			}
+		}
+		if e, ok := ret.Results[1].(*ssa.Const); !ok || !e.IsNil() {
+			continue
+		}
+		if !isUnchanged {
+			continue
+		}
+		n++
+		for _, nd := range needs {
+			if r, _ := CanReach(Entry(fn), func(in ssa.Instruction) bool { return in == ssa.Instruction(ret) }, ReachOpts{CutInstr: isWrite, CutEdge: func(b *ssa.BasicBlock, k int) bool { return EdgeFactMatches(b, k, nd.m) }}); r {
+				missing = append(missing, nd.desc)
+			}
+		}
+	}
+	c.Ob("R15.11", "compareAndUpdateObject#unchanged-needs-all-three", fn.Pos(), n > 0 && len(missing) == 0, "unchanged is answered only behind spec, annotation and label equality",
+		ifs(len(missing) > 0, "'unchanged' can be answered without: "+strings.Join(missing, ", ")+" — a script that expresses the canary rule in that part of the object is reported applied although nothing was written")+ifs(n == 0, "no unchanged-return found"))
+}
+
+func r5C03b(c *Ctx) {
+	p := c.Prog
+	c.Rule("R3.10", "removeBatchRelease reports gone only for a BatchRelease that was not found", 1)
+	fn := p.Func("pkg/controller/rollout.removeBatchRelease")
+	if fn == nil {
+		c.Unresolved("R3.10", "rollout.removeBatchRelease")
+		return
+	}
+	bad := ""
+	n := 0
+	for _, ret := range returnsOf(fn) {
+		if ret.Block() == fn.Recover || len(ret.Results) != 2 {
+			continue
+		}
+		if e, ok := ret.Results[1].(*ssa.Const); !ok || !e.IsNil() {
+			continue
+		}
+		gone := false
+		for _, lf := range BoolLeaves(ret.Results[0], ret.Block()) {
+			if k, ok := lf.V.(*ssa.Const); ok && constText(k) == "false" {
+				gone = true
+			}
+		}
+		if !gone {
+			continue
+		}
+		n++
+		if r, _ := CanReach(Entry(fn), func(in ssa.Instruction) bool { return in == ssa.Instruction(ret) }, ReachOpts{CutEdge: func(b *ssa.BasicBlock, k int) bool {
+			return EdgeFactMatches(b, k, FTrue(MCall("errors.IsNotFound")))
+		}}); r {
+			bad = "the return at " + p.Pos(ret.Pos()) + " answers (no retry, nil) on a path where the BatchRelease was found"
+		}
+	}
+	c.Ob("R3.10", "removeBatchRelease#gone-means-not-found", fn.Pos(), n > 0 && bad == "", "no-retry is answered only behind IsNotFound",
+		ifs(bad != "", bad+": a BatchRelease that is still terminating survives the reset; the next release finds it with an equal spec and takes its old 'batch Ready' for its own — routing is written for pods that do not exist")+ifs(n == 0, "no gone-return found"))
+}
